@@ -46,7 +46,7 @@ def showLock (l : List LockEv) : String :=
 
 def showState (s : State) : String :=
   joinSp [showPhase s.phase, toString s.length, toString s.errors, toString s.ops, toString s.renewals,
-    showReason s.reason, match s.started with | none => "-" | some t0 => toString (s.now - t0)]
+    showReason s.reason, match age s with | none => "-" | some a => toString a]
 
 def showAcc (cfg : Cfg) (s : State) : String :=
   joinSp [showBool (isOperational s), showBool (isActive s),
